@@ -388,8 +388,8 @@ pub fn jobs_for(prop: &str, thorough: bool) -> Vec<Job> {
 fn eval_keys(prop: &str) -> Vec<&'static str> {
     match prop {
         "C01" => vec!["table"],
-        "C02" => vec!["law_comm", "law_assoc", "law_idem"],
-        "C03" => vec!["law_hybrid", "law_hybrid_oppath", "spec"],
+        "C02" => vec!["law_comm", "law_assoc", "law_idem", "law_followup"],
+        "C03" => vec!["law_hybrid", "law_hybrid_oppath", "law_followup", "spec"],
         "C04" | "C05" | "C06" => vec!["spec"],
         "C07" => vec!["ctx_read", "ctx_derive", "ctx_next_dot", "ctx_rm_known"],
         "C08" => vec!["spec", "table"],
